@@ -8,3 +8,5 @@ for c in "$@"; do
 done
 git -C /repo checkout -- .
 git -C /repo status --short | grep -v _build
+# refresh the evidence files on the unchanged tree
+for c in "$@"; do (cd /verif && ./check $c > /dev/null 2>&1); done
